@@ -18,7 +18,7 @@ DIAG = {1: 'partition: some block is in no family or in two (or a member index i
 
 def gen_nested_big(rng):
     """chains and diamonds of headers like tests/supersets_*.rs"""
-    shape = rng.choice(['diamond', 'chain', 'dup', 'wild', 'wild'])
+    shape = rng.choice(['diamond', 'chain', 'dup', 'wild', 'wild', 'fan'])
     G = rng.sample(gp.GROUPS, 3) + ['X3']
     tr = rng.choice(['D', 'D2'])
     a = rng.choice(gp.TRAITS[tr])
@@ -35,6 +35,11 @@ def gen_nested_big(rng):
         key_in_spec = 'Vec<{T0}>'
         nb = gp.Block(slots, None, spec_fmt, [(key_in_spec, tr, {}, 'where'), ('{T0}', own_tr, {'G': G[2]}, 'where')], 'b2')
         blocks.append(nb)
+    elif shape == 'fan':
+        # a root with two nested siblings whose rows may coincide (F16 pattern)
+        hs = [('{T0}', ['T0']), ('Option<{T0}>', ['T0']), ('Vec<{T0}>', ['T0'])]
+        gs = [G[0], G[1], rng.choice([G[1], G[2]])]
+        blocks = [blk(h, u, h, gs[i], 'b%d' % i) for i, (h, u) in enumerate(hs)]
     elif shape == 'diamond':
         hs = [('({T0}, {T1})', ['T0', 'T1']), ('(Vec<{T0}>, {T1})', ['T0', 'T1']), ('({T0}, Vec<{T1}>)', ['T0', 'T1']),
               ('(Vec<{T0}>, Vec<{T1}>)', ['T0', 'T1'])]
